@@ -122,9 +122,13 @@ CLAIMED = {
     'C04': dict(
         text=('Lean theorems: progress + preservation of the operator semantics for the model\'s own typing table (every binary '
               'and unary operator on conforming non-NULL operands returns a value of the typed result or NULL and never a type '
-              'error; BETWEEN on comparable classes returns bool), lifted by structural induction to operator trees over typed '
-              'columns; `decide` theorems over the registry REGENERATED from the code: every binary/unary overload declares '
-              'exactly the type its semantics returns, comparison/BETWEEN/IN announce bool, aggregate result types, closed world '
+              'error; BETWEEN on comparable classes returns bool), lifted by mutual structural induction (`C04_preservation`) to '
+              'expression trees of typed columns, constants, unary / binary operators, BETWEEN, AND, OR and COALESCE: the value '
+              'is NULL or an instance of the announced datatype - AND / OR / BETWEEN give a bool whatever the operand types - '
+              'and no type error is raised; the compiler only builds such nodes: `C04_compileBinop_wellTyped` (also when the '
+              'node is folded into a constant, by preservation), `C04_compileBetween_wellTyped`, `C04_coalesce_wellTyped`, each '
+              'through the overload the live registry returns; `decide` theorems over the registry REGENERATED from the code: every binary/unary overload declares '
+              'exactly the type its semantics returns (also as found by `lookupExact`: `C04_binop_lookup_agrees`), comparison/BETWEEN/IN announce bool, BETWEEN overloads are over one comparable class, aggregate result types, closed world '
               'of operator classes. Tied to the code additionally by an oracle on the implementation: every cell of every '
               'column of every Beancount table, every structured attribute and every function/aggregate/operator overload of '
               'the registry driven through SQL is checked against the announced datatype, rendered and numberified.'),
@@ -184,7 +188,11 @@ CLAIMED = {
         text=('Lean theorems: for ANY number of threads and ANY schedule, if each step touches only its own thread\'s private '
               'state, the state of every thread after the schedule is its own step function iterated as often as it was '
               'scheduled - so every interleaving (every permutation of a schedule) gives the serial result; the repaired balance '
-              'column (guard kept in the scan\'s row context) is an instance; a decided schedule A B A\' on which the former '
+              'column (guard kept in the scan\'s row context) is an instance; state SHARED by the threads is covered by '
+              '`C20_shared_benign`: under an invariant of the shared state that makes every private effect independent of it, '
+              'every thread ends where its private steps alone take it after any schedule - instance `C20_shared_memo_harmless`: '
+              'a memo table of a PURE function shared by all threads, of any capacity and with any eviction policy, never '
+              'changes a result (what a regex or overload cache is; what the old balance cache was not); a decided schedule A B A\' on which the former '
               'process-wide one-entry cache counts a posting twice; the advertised thread-safety level is a generated fact. Tied to '
               'the code by scheduler-driven threads: all interleavings of 2 threads x 2 yield points plus seeded longer schedules '
               'and sampled triples, on a shared connection and on separate connections, each compared with serial execution; a '
